@@ -440,3 +440,17 @@ Theorem mergeable_spec indep v t :
 Proof.
   unfold mergeable. rewrite andb_true_iff, orb_true_iff, Z.eqb_eq, negb_true_iff. reflexivity.
 Qed.
+
+(* ---------- C15: the processing order is a function of the values alone: non-increasing,
+   and pixels of equal value in decreasing index (stable sort, reversed) *)
+Lemma filter_rev' {A} (f : A -> bool) l : filter f (rev l) = rev (filter f l).
+Proof.
+  induction l as [|x l IH]; [reflexivity|]. cbn [rev filter]. rewrite filter_app, IH. cbn [filter].
+  destruct (f x); [reflexivity | apply app_nil_r].
+Qed.
+
+Theorem order_tie_break k v :
+  filter (fun pv => snd pv =? v) (order_of k) = rev (filter (fun pv => snd pv =? v) k).
+Proof.
+  unfold order_of. rewrite filter_rev'. f_equal. apply sort_by_stable.
+Qed.
